@@ -126,6 +126,9 @@ C03(e, pre, post) ==
 ---------------------------------------------------------------------------
 (* C16 - fees and gas *)
 
+\* value destroyed by a contract that self-destructs into itself (by EVM definition; recorded from the reference run)
+EvmBurnBy(e) == IF e.ev = "DeliverTx" /\ "evmBurn" \in DOMAIN e THEN e.evmBurn ELSE <<>>
+
 \* value that leaves / enters the sender's balance besides the fee
 Outflow(tx) == IF tx.type \in {"transfer", "staking"} THEN tx.amount ELSE <<>>
 Inflow(tx)  == IF tx.type = "withdraw" THEN tx.payload.req
@@ -142,6 +145,11 @@ C16(e, pre, post, mon) ==
       \cup If(ok /\ Native(tx) /\ ~EvmTx(pre, tx) /\ (e.resp.gasUsed # tx.gas \/ e.resp.gasWanted # tx.gas),
               "C16: gas used / wanted of a native transaction is not its gas limit")
       \cup If(ok /\ EvmTx(pre, tx) /\ BLt(tx.gas, e.resp.gasUsed), "C16: a contract transaction used more gas than its limit")
+      \* a contract transaction only moves value between accounts: all balances together fall by exactly gas used x price
+      \* (plus what a self-destruct into itself burns by EVM definition)
+      \cup If(ok /\ EvmTx(pre, tx)
+                 /\ BAdd(SumBalances(post), BAdd(BMul(e.resp.gasUsed, g.gasPrice), EvmBurnBy(e))) # SumBalances(pre),
+              "C16: a successful contract transaction did not cost exactly gas used x price")
       \cup If(ok /\ post.feeSum # BAdd(pre.feeSum, BMul(e.resp.gasUsed, g.gasPrice)),
               "C16: the block's fee sum did not grow by exactly gas used x price")
       \cup If(~ok /\ post.feeSum # pre.feeSum, "C16: fee accumulated for a failed transaction")
@@ -175,8 +183,6 @@ MintedBy(e) == IF IsTx(e) /\ e.resp.ok /\ e.tx.type = "withdraw" THEN e.tx.paylo
 BurnedBy(e, pre, post) ==
   IF e.ev = "BeginBlock" /\ StakePower(pre) > StakePower(post) THEN StakePower(pre) - StakePower(post) ELSE 0
 LostBy(e, pre, mon) == IF e.ev = "EndBlock" /\ mon.proposer = "none" THEN pre.feeSum ELSE <<>>
-\* value destroyed by contracts that self-destruct into themselves (recorded by the EVM hook stream)
-EvmBurnBy(e) == IF e.ev = "DeliverTx" /\ "evmBurn" \in DOMAIN e THEN e.evmBurn ELSE <<>>
 
 C02(e, pre, post, mon) ==
   IF e.ev \in {"BeginBlock", "DeliverTx", "EndBlock", "Commit", "CheckTx", "Restart"} THEN
@@ -563,6 +569,39 @@ C19Commit(e, pre) ==
       \cup If(c.delegs # pre.delegs, "C19: delegatees returned by queries differ from what the block committed")
       \cup If(c.rewards # pre.rewards, "C19: rewards returned by queries differ from what the block committed")
       \cup If(c.props # pre.props \/ c.fprops # pre.fprops, "C19: proposals returned by queries differ from what the block committed")
+  ELSE {}
+
+---------------------------------------------------------------------------
+(* C17 - contract execution = reference EVM over the native ledger.          *)
+(* e.ref is the outcome of the reference run recorded next to the real one:  *)
+(* the same interpreter on a plain state DB seeded with every native         *)
+(* account's balance and nonce, block context and message built              *)
+(* independently from the header and the transaction.  A transaction the     *)
+(* reference fails has no effect at all in rigo-go (C04/C05).                *)
+
+\* the transaction passes the native admission rules (signature, price, minimum fee, nonce: C03, C04, C16);
+\* only then is it handed to the EVM at all
+Admissible(e, pre) ==
+  /\ e.tx.auth = "valid" /\ e.tx.gasPrice = pre.gov.gasPrice /\ e.tx.nonce = Nonce(pre, e.tx.from)
+  /\ ~BLt(Fee(e.tx, pre.gov), BMul(pre.gov.minTrxGas, pre.gov.gasPrice))
+
+C17(e, pre, post) ==
+  IF IsTx(e) /\ "ref" \in DOMAIN e /\ Admissible(e, pre) THEN
+    LET r == e.ref  ok == e.resp.ok IN
+      If(ok # r.ok, "C17: success / failure differs from the reference EVM")
+      \cup If(ok /\ r.ok /\ e.resp.gasUsed # r.gasUsed, "C17: gas used differs from the reference EVM")
+      \cup If(ok /\ r.ok /\ ~r.create /\ e.resp.data # r.ret, "C17: return data differs from the reference EVM")
+      \cup If(~ok /\ ~r.ok /\ r.retLen > 0 /\ e.resp.data # r.ret, "C17: revert data differs from the reference EVM")
+      \cup If(ok /\ r.ok /\ r.implLogs # r.logs, "C17: emitted logs differ from the reference EVM")
+      \cup If(ok /\ r.ok /\ \E a \in DOMAIN r.bal : Bal(post, a) # r.bal[a],
+              "C17: a native balance after the transaction differs from the EVM's result")
+      \cup If(ok /\ r.ok /\ \E a \in DOMAIN r.nonce : Nonce(post, a) # r.nonce[a],
+              "C17: a native nonce after the transaction differs from the EVM's result")
+      \cup If(ok /\ r.ok /\ \E a \in DOMAIN post.accts : a \notin DOMAIN r.bal /\ Acct(post, a) # Acct(pre, a),
+              "C17: an account the reference EVM did not touch changed")
+      \cup If(ok /\ r.ok /\ HasEvm(post) /\ \E c \in DOMAIN r.evm \cup DOMAIN post.evm :
+                 c \notin DOMAIN r.evm \/ c \notin DOMAIN post.evm \/ post.evm[c].code # r.evm[c].code \/ post.evm[c].storage # r.evm[c].storage,
+              "C17: contract code or storage after the transaction differs from the reference EVM")
   ELSE {}
 
 ---------------------------------------------------------------------------
